@@ -175,6 +175,9 @@ def structural_mutants(rng, oracle, rec):
     sg = key.sign(oracle, content)
     out.append(("missing_value", rlp_list(rlp_str(sg) + body)))
     nd = dict(d); nd.pop(b"id"); out.append(("no_id", mk(sorted(nd.items()))))
+    if getattr(key, "pub_unc", None):
+        for lab, enc in (("pubkey_raw_xy", key.pub_unc[1:]), ("pubkey_uncompressed_signed", key.pub_unc), ("pubkey_hybrid", bytes([6 + (key.pub_unc[-1] & 1)]) + key.pub_unc[1:])):
+            nd = dict(d); nd[key.entry] = rlp_str(enc); out.append((lab, mk(sorted(nd.items()))))
     nd = dict(d); nd[b"id"] = rlp_str(rng.choice([b"v5", b"v", b"v4 ", b"", b"V4"])); out.append(("other_id", mk(sorted(nd.items()))))
     nd = dict(d); nd[b"id"] = rlp_list(rlp_str(b"v4")); out.append(("id_list", mk(sorted(nd.items()))))
     nd = dict(d); nd.pop(key.entry); out.append(("no_pubkey", mk(sorted(nd.items()))))
@@ -265,6 +268,53 @@ def tampers(rng, oracle, rec, others, n_flips=None):
         out.append(("r_plus_n", record_bytes(oracle, key, seq, pl, sort=False, sig=((int.from_bytes(sg[:32], "big") + SECP_N) % 2**256).to_bytes(32, "big") + sg[32:])[0]))
     for bad in (sg[:-1], sg + b"\x00", b"", sg[:32], sg + sg):
         out.append(("wrong_length_sig", record_bytes(oracle, key, seq, pl, sort=False, sig=bad)[0]))
+    if key.scheme == "k" and len(sg) == 64:
+        # the same (r, s) in ASN.1 DER, as other tooling serialises signatures
+        out.append(("der_sig", record_bytes(oracle, key, seq, pl, sort=False, sig=der_sig(sg))[0]))
+        # a signature whose r has a leading zero byte, with that byte stripped (63 bytes)
+        for dseq in range(0, 600):
+            s2 = (seq + dseq) % 2**64
+            content2 = record_bytes(oracle, key, s2, pl, sort=False)[1]
+            sg2 = key.sign(oracle, content2)
+            if sg2[0] == 0:
+                out.append(("sig_leading_zero_stripped", record_bytes(oracle, key, s2, pl, sort=False, sig=sg2[1:])[0]))
+                break
+        # the public-key value swapped for another encoding of the same point, signature untouched
+        if getattr(key, "pub_unc", None):
+            pl2 = [(k, rlp_str(key.pub_unc) if k == key.entry else v) for k, v in pl]
+            out.append(("pubkey_reencoded_unsigned", record_bytes(oracle, key, seq, pl2, sort=False, sig=sg)[0]))
+    return out
+
+
+def der_int(b):
+    b = b.lstrip(b"\x00") or b"\x00"
+    if b[0] & 0x80:
+        b = b"\x00" + b
+    return b"\x02" + bytes([len(b)]) + b
+
+
+def der_sig(sg):
+    body = der_int(sg[:32]) + der_int(sg[32:])
+    return b"\x30" + bytes([len(body)]) + body
+
+
+# ed25519 keys that are encodings of the neutral element (canonical and non-canonical): with the signature
+# (R = neutral, S = 0) the verification equation holds for every message under non-strict verification
+WEAK_ED_KEYS = [b"\x01" + b"\x00" * 31, b"\x01" + b"\x00" * 30 + b"\x80", b"\xee" + b"\xff" * 30 + b"\x7f",
+                b"\xec" + b"\xff" * 30 + b"\x7f", b"\x00" * 32, b"\x00" * 31 + b"\x80"]
+WEAK_ED_SIG = b"\x01" + b"\x00" * 31 + b"\x00" * 32
+
+
+def weak_ed_records(rng):
+    """records keyed by small-order / non-canonically encoded ed25519 points; whether they are valid is the
+    library's (lenient) verification's call: every key type must give the same answer as the library asked directly"""
+    out = []
+    for pk in WEAK_ED_KEYS:
+        pairs = {b"id": rlp_str(b"v4"), b"ed25519": rlp_str(pk)}
+        if rng.random() < 0.5:
+            pairs[b"ip"] = rlp_str(rbytes(rng, 4))
+        body = rlp_uint(rng.choice([1, 7, 300])) + b"".join(rlp_str(k) + v for k, v in sorted(pairs.items()))
+        out.append(rlp_list(rlp_str(WEAK_ED_SIG) + body))
     return out
 
 
@@ -337,8 +387,12 @@ def text_edits(rng, recbytes):
         last = alph.index(body[-1])
         out.append(("trailing_bits", b"enr:" + body[:-1] + bytes([alph[last | 1]])))
         out.append(("trailing_bits2", b"enr:" + body[:-1] + bytes([alph[last | 2]])))
-    for n in (1, 2, 3, rng.randrange(4, 40)):
+    for n in (1, 2, 3, rng.randrange(4, 40), 211, 212, 400, 700):
         out.append(("bytes_after_record", b"enr:" + b64(recbytes + rbytes(rng, n))))
+    out.append(("bytes_after_record_zero", b"enr:" + b64(recbytes + b"\x00" * rng.choice([1, 2, 3, 300]))))
+    for n in (1, 2, 3, 4, 5):
+        out.append(("drop_last_chars", t[:-n]))
+        out.append(("drop_last_chars_noprefix", body[:-n]))
     out.append(("short", rng.choice([b"", b"e", b"en", b"enr", b"enr:", b"AAA"])))
     out.append(("utf8", "enr:é".encode() + body))
     return out
